@@ -35,7 +35,7 @@ PlainContainers ==
    Arr(<<Num(R_1), Str("a")>>), Arr(<<Null>>), Arr(<<Str("1")>>),
    EmptyObj, Obj([a |-> Num(R_1)]), Obj([a |-> Num(R_2)]), Obj([b |-> Num(R_1)]), Obj([a |-> Num(R_1), b |-> Num(R_2)]),
    Obj([a |-> Arr(<<Num(R_1)>>)]), Obj(("U_e1" :> Num(R_1))), Obj(("U_e2" :> Num(R_1))), Obj([a |-> Null]),
-   Arr(<<Obj([a |-> Num(R_1)])>>)}
+   Arr(<<Obj([a |-> Num(R_1)])>>), Obj(("1" :> Num(R_1))), Obj(("1" :> Str("1")))}      \* (member names that look like numbers)
 \* null carried as a typed nil pointer (inside an interface element that is a non-nil interface holding nil)
 NilPtr == [t |-> "null", r |-> "nilptr"]
 EQNilPtr == {NilPtr, [t |-> "arr", e |-> <<NilPtr>>, r |-> "any"], [t |-> "arr", e |-> <<NilPtr>>, r |-> "arrayany"],
@@ -79,6 +79,12 @@ UACore == {Num(R_0), Num(R_1), Str("1"), Null, Arr(<<Num(R_m1)>>)}
 UAPlain(z) == {Arr(e) : e \in UNION {[1..n -> UAElems] : n \in 0..2}}
               \cup (IF K >= 2 THEN {Arr(e) : e \in [1..3 -> UACore]} ELSE {})
               \cup {Arr(<<Num(R_1), Num(R_2), Num(R_0), x, Num(R_1h)>>) : x \in {Num(R_1), Num(R_4), Num(R_0)}}
+\* objects whose member names look like numbers ("1", "0", "-0"), carried as map[string]any, map[K]any (K a defined
+\* string type) and map[json.Number]any in every mix: a member NAME is a string whatever the key type is
+UAKeyedPlain == {Arr(<<Obj(("1" :> Num(R_1))), Obj(("1" :> Num(R_1)))>>), Arr(<<Obj(("1" :> Num(R_1))), Obj(("0" :> Num(R_1)))>>),
+                 Arr(<<Obj(("0" :> Num(R_0))), Obj(("0" :> Num(R_0)))>>), Arr(<<Obj(("1" :> Str("1"))), Obj(("1" :> Num(R_1)))>>),
+                 Arr(<<Obj(("1" :> Num(R_1)) @@ ("0" :> Num(R_0))), Obj(("0" :> Num(R_0)) @@ ("1" :> Num(R_1)))>>)}
+UAKeyedReps == UNION {RepsOf(v, {"float64"}, {"any"}, {"any", "namedkey", "numberkey"}) : v \in UAKeyedPlain}
 UAReps(v) == RepsOf(v, IF K >= 2 THEN {"float64", "int", "jsonNumber", "uint64"} ELSE {"float64", "jsonNumber", "negzero", "uint64"}, {"any", "arrayany", "array"}, IF K >= 2 THEN {"any", "typed"} ELSE {"any"})
 UASchemas == <<[uniqueItems |-> TRUE],
                [enum |-> <<Num(R_1), Str("a"), Arr(<<Num(R_m1)>>), Obj([a |-> Num(R_1)]), Arr(<<Num(R_1), Num(R_m1)>>), Null>>],
@@ -153,7 +159,7 @@ RVSeq == IF Family = "RV" THEN SetToSeq(RVReps(0)) ELSE <<>>
 
 Cases ==
   CASE Family = "EQ" -> EQPool(0)
-    [] Family = "UA" -> UNION {UAReps(v) : v \in UAPlain(0)} \cup UACollReps \cup UABytesReps \cup UANestedReps
+    [] Family = "UA" -> UNION {UAReps(v) : v \in UAPlain(0)} \cup UACollReps \cup UABytesReps \cup UANestedReps \cup UAKeyedReps
     [] Family = "RV" -> {RVSchemas[i] : i \in DOMAIN RVSchemas}
     [] Family = "HU" -> {Arr(e) : e \in UNION {[1..n -> {Num(R_1), Num(R_2), Str("a")}] : n \in 0..4}}
 
